@@ -368,7 +368,10 @@ func DeserializeData(s []byte, uncompress bool) ([]byte, CompressionFormat, erro
 			return nil, 0, err
 		}
 
-		data2 := imgdata.(*image.Gray)
+		data2, ok := imgdata.(*image.Gray)
+		if !ok {
+			return nil, 0, fmt.Errorf("JPEG serialization did not decode to a grayscale image (got %T)", imgdata)
+		}
 		return data2.Pix, compression, nil
 	case Gzip:
 		b := bytes.NewBuffer(cdata)
